@@ -478,6 +478,9 @@ class Interp:
         return self._call_spec1(f, args, kwargs, bool(assumed), proving)
 
     def _call_spec1(self, f, args, kwargs, assumed, proving):
+        ab = self.reg.abstractions.get(f) if isinstance(f, types.FunctionType) else None
+        if ab is not None and ab[0](self):
+            return ab[1](self, list(args), kwargs)
         if isinstance(f, Closure) and _is_spec_file(f.info.filename):
             return self.run_function(f.info, f.enclosing, f.defaults, f.kwdefaults, args, kwargs, f.defcls_hint,
                                      assumed=assumed, proving=proving)
@@ -495,9 +498,12 @@ class Interp:
         if not isinstance(func, types.FunctionType):
             # e.g. builtin method bound via BoundMethod
             return self.call_native(func, args, kwargs)
+        ab = self.reg.abstractions.get(func)
+        if ab is not None and ab[0](self):
+            return ab[1](self, list(args), kwargs)
         # contract?
         c = self.reg.contract_for(func)
-        if c is not None and not c.inline:
+        if c is not None and not (c.inline(self.fn_name) if callable(c.inline) else c.inline):
             return self.reg.apply_contract(self, c, func, args, kwargs)
         m = self.reg.model_for(func)
         if m is not None:
@@ -854,6 +860,21 @@ class Interp:
         if a is b and not isinstance(a, float):
             return True
         if isinstance(a, (SOpt, SChoice)) or isinstance(b, (SOpt, SChoice)):
+            if isinstance(a, SChoice) and isinstance(b, SChoice):
+                # two selections among concrete alternatives: a term over the two indices, no case split
+                pairs = []
+                for i, x in enumerate(a.alts):
+                    for j, y in enumerate(b.alts):
+                        r = self.eq(x, y) if not (isinstance(x, Sym) or isinstance(y, Sym)) else None
+                        if r is None or not isinstance(r, bool):
+                            pairs = None
+                            break
+                        if r:
+                            pairs.append(z3.And(a.idx == i, b.idx == j))
+                    if pairs is None:
+                        break
+                if pairs is not None:
+                    return wrap(z3.Or(*pairs)) if pairs else False
             if isinstance(a, SOpt) and b is None:
                 return wrap(a.is_none)
             if isinstance(b, SOpt) and a is None:
@@ -960,7 +981,9 @@ class Interp:
             return self.is_(b, a)
         if isinstance(a, SChoice):
             if isinstance(b, SChoice):
-                return self.is_(self.resolve(a), b)
+                pairs = [z3.And(a.idx == i, b.idx == j) for i, x in enumerate(a.alts) for j, y in enumerate(b.alts)
+                         if x is y]
+                return wrap(z3.Or(*pairs)) if pairs else False
             hits = [a.idx == i for i, alt in enumerate(a.alts) if alt is b]
             if not hits:
                 return False
@@ -2000,6 +2023,12 @@ def _assumed_positions(info):
             for n in _walk_own(node):
                 if isinstance(n, ast.Return) and n.value is not None:
                     collect(n.value)
+                elif isinstance(n, ast.If) and not n.orelse and len(n.body) == 1 \
+                        and isinstance(n.body[0], ast.Return) and isinstance(n.body[0].value, ast.Constant) \
+                        and n.body[0].value.value is False and isinstance(n.test, ast.UnaryOp) \
+                        and isinstance(n.test.op, ast.Not):
+                    # `if not f(..): return False`: f(..) must be true whenever the function's result is
+                    collect(n.test.operand)
         _ASSUMED_POS[key] = (r, info.node)
     else:
         r = r[0]
